@@ -1,0 +1,40 @@
+//! Verification seam, compiled only with `--cfg ts_rs_verif`.
+//!
+//! The order in which a derived `visit_dependencies` visits its entries is baked in from the
+//! iteration order of a `HashSet` whose hash seed differs between compilations. Under the guard
+//! the entries are emitted in a canonical (sorted) order behind a run-time dispatch, so that a
+//! simulator can replay every order a fresh compilation could have produced.
+
+use proc_macro2::TokenStream;
+use quote::{quote, ToTokens};
+use syn::Path;
+
+pub fn dependencies_to_tokens<'a, D: ToTokens + 'a>(
+    crate_rename: &Path,
+    dependencies: impl Iterator<Item = &'a D>,
+    tokens: &mut TokenStream,
+) {
+    let mut lines: Vec<(String, TokenStream)> = dependencies
+        .map(|d| {
+            let t = d.to_token_stream();
+            (t.to_string(), t)
+        })
+        .collect();
+    lines.sort_by(|a, b| a.0.cmp(&b.0));
+
+    let n = lines.len();
+    let index = 0..n;
+    let lines = lines.into_iter().map(|(_, t)| t);
+
+    tokens.extend(quote![
+        for __ts_rs_verif_i in #crate_rename::verif_seam::visit_order(
+            std::any::type_name::<Self>(),
+            #n,
+        ) {
+            match __ts_rs_verif_i {
+                #(#index => { #lines; })*
+                _ => {}
+            }
+        }
+    ]);
+}
